@@ -42,3 +42,55 @@ impl PluginGroup for RepliconExampleBackendPlugins {
         group
     }
 }
+
+/// Wrappers around crate-private items for the external verification harness.
+#[cfg(feature = "verif_hooks")]
+pub mod verif_hooks {
+    use std::{
+        io,
+        net::{Ipv4Addr, TcpListener, TcpStream},
+        time::{Duration, Instant},
+    };
+
+    use bevy_replicon::bytes::Bytes;
+
+    use super::{link_conditioner::LinkConditioner, tcp};
+
+    /// Feeds batches into a conditioner without configuration the way `receive_packets` does:
+    /// every message of a batch is inserted with the same timestamp, then everything ready is popped.
+    pub fn conditioner_batches(batches: &[Vec<(u8, Vec<u8>)>]) -> Vec<(u8, Vec<u8>)> {
+        let mut conditioner = LinkConditioner::default();
+        let start = Instant::now();
+        let mut output = Vec::new();
+        for (index, batch) in batches.iter().enumerate() {
+            let now = start + Duration::from_millis(index as u64);
+            for (channel_id, message) in batch {
+                conditioner.insert(None, now, *channel_id, Bytes::from(message.clone()));
+            }
+            while let Some((channel_id, message)) = conditioner.pop(now) {
+                output.push((channel_id, message.to_vec()));
+            }
+        }
+        output
+    }
+
+    /// A connected pair of loopback streams, the reading side non-blocking like the backend's sockets.
+    pub fn socket_pair() -> io::Result<(TcpStream, TcpStream)> {
+        let listener = TcpListener::bind((Ipv4Addr::LOCALHOST, 0))?;
+        let writer = TcpStream::connect(listener.local_addr()?)?;
+        writer.set_nodelay(true)?;
+        let (reader, _) = listener.accept()?;
+        reader.set_nonblocking(true)?;
+        Ok((writer, reader))
+    }
+
+    /// Calls the private `tcp::send_message`.
+    pub fn send_message(stream: &mut TcpStream, channel_id: usize, message: &[u8]) -> bool {
+        tcp::send_message(stream, channel_id, message).is_ok()
+    }
+
+    /// Calls the private `tcp::read_message`.
+    pub fn read_message(stream: &mut TcpStream) -> io::Result<(u8, Vec<u8>)> {
+        tcp::read_message(stream).map(|(channel_id, message)| (channel_id, message.to_vec()))
+    }
+}
